@@ -282,6 +282,8 @@ def native_rescale_replay(model):
     except Exception:
         pass
     cands += [((-2.0,), (2.0,), (0.0,), (1.0,)), ((0.0, -3.0), (10.0, 5.0), (-1.0, 2.0), (1.0, 3.0)), ((-1.0, -2.0), (1.0, 3.0), (-1.0, -1.0), (1.0, 1.0))]
+    # same width, shifted (gradient exactly 1); one dimension same width and one not; identical box (a true no-op)
+    cands += [((-2.0,), (2.0,), (0.0,), (4.0,)), ((0.0, -3.0), (10.0, 5.0), (5.0, -1.0), (15.0, 1.0)), ((-1.0, -2.0), (1.0, 3.0), (-1.0, -2.0), (1.0, 3.0))]
     for lo, hi, mn, mx in cands:
         box = Box(jnp.array(lo, f32), jnp.array(hi, f32))
         nb, fwd, bwd = rescale_box(box, jnp.array(mn, f32), jnp.array(mx, f32))
@@ -329,7 +331,7 @@ def rescale_onesided_obligations(S, fn):
         low, high, x, mn_s, mx_s = [sym(ctx, nm, sd((n,), f32)) for nm in ("low", "high", "x", "min", "max")]
         mn_fin = np.array([p in "FU" for p in pat])
         mx_fin = np.array([p in "FL" for p in pat])
-        masks = iter([mn_fin, mx_fin])
+        masks = itertools.cycle([mn_fin, mx_fin])
 
         def prog(lo_, hi_, mn_, mx_, x_):
             mn_ = jnp.where(mn_fin, mn_, -jnp.inf)
@@ -362,10 +364,19 @@ def rescale_onesided_obligations(S, fn):
                      "(a shift where one side is infinite), and backward undoes forward: RescaleObservation's observations are members of the space it declares")
 
 
+def _rescale_battery(model):
+    for f in (native_rescale_replay, native_rescale_onesided_replay):
+        r = f(model)
+        if r.get("reproduced"):
+            return r
+    return dict(reproduced=False, note="rescale_box: bounded and one-sided target ranges map the inner box onto / into the declared box")
+
+
 def unit_rescale(S):
     """rescale_box on a bounded box: new box = Box(min, max); forward/backward are affine, mutually inverse, and take the
     bounds exactly onto each other (over the reals): backward(min) = low, backward(max) = high, forward(low) = min, forward(high) = max.
     RescaleAction uses backward (new -> original), RescaleObservation uses forward (original -> new)."""
+    S.default_replay = _rescale_battery      # also the native witness if rescale_box can no longer be extracted path by path
     fn = "lerax.wrapper.utils:rescale_box"
     S.under_contract(fn, "lerax.wrapper:RescaleAction.__init__", "lerax.wrapper:RescaleObservation.__init__")
     S.note("rescale_box is evaluated eagerly (its isfinite masks index arrays with boolean masks, not traceable); its outputs for "
